@@ -193,33 +193,50 @@ class FaultFS:
             self.snapshots.append(snapshot(self.root, self.ext))
 
 
-class FaultyPartitions:
-    """f(index, iterator) for RDD.mapPartitionsWithIndex: partition `i` yields data[i]; attempt `a` (1-based,
-    counted per partition) fails when the plan has an entry (i, a, cls, lazy): eagerly (at the call of the
-    partition function) or lazily (from a generator, after its first element or at exhaustion) with an exception
-    of class `cls`; cls NATURAL = the partition function does `next()` on an empty iterator, the classic
-    head-of-partition idiom, which raises StopIteration by itself."""
+class PartitionData:
+    """f(index, iterator) for RDD.mapPartitionsWithIndex: partition `i` yields data[i] (no faults)."""
 
-    def __init__(self, data, cfaults):
+    def __init__(self, data):
         self.data = data
-        self.cfaults = {(int(c[0]), int(c[1])): (int(c[2]) if len(c) > 2 else INJECTED, bool(c[3]) if len(c) > 3 else False)
-                        for c in cfaults}
-        self.attempts = {}
 
     def __call__(self, idx, _it):
+        return iter(list(self.data[idx]))
+
+
+class FaultyPartitions:
+    """f(index, iterator) for RDD.mapPartitionsWithIndex, applied on top of PartitionData: passes the elements of
+    the partition through; while `armed`, attempt `a` (1-based, counted per partition) fails when the plan has an
+    entry (i, a, cls, lazy, pos): eagerly (at the call of the partition function) or lazily -- a generator that
+    passes `pos` elements through (all of them when the partition is shorter: the fault then comes after the last
+    element) and raises when the next one is asked for, like a mapped function raising on element `pos` -- with an
+    exception of class `cls`; cls NATURAL = the partition function does `next()` on an empty iterator, the classic
+    head-of-partition idiom, which raises StopIteration by itself.  Not armed (while the harness materialises a
+    persisted data set beforehand): plain pass-through, attempts not counted."""
+
+    def __init__(self, cfaults):
+        self.cfaults = {(int(c[0]), int(c[1])): (int(c[2]) if len(c) > 2 else INJECTED, bool(c[3]) if len(c) > 3 else False,
+                                                 int(c[4]) if len(c) > 4 else 1)
+                        for c in cfaults}
+        self.attempts = {}
+        self.armed = True
+
+    def __call__(self, idx, it):
+        if not self.armed:
+            return it
         a = self.attempts.get(idx, 0) + 1
         self.attempts[idx] = a
         fault = self.cfaults.get((idx, a))
         if fault is not None:
-            cls, lazy = fault
+            cls, lazy, pos = fault
             if cls == NATURAL:
                 return [next(iter(()))]
             if not lazy:
                 raise _exc(cls, InjectedComputeFault, f'partition {idx} attempt {a}')
-            return self._lazy_fault(idx, a, cls)
-        return iter(list(self.data[idx]))
+            return self._lazy_fault(idx, a, cls, pos, it)
+        return it
 
-    def _lazy_fault(self, idx, a, cls):
-        for x in self.data[idx][:1]:
+    @staticmethod
+    def _lazy_fault(idx, a, cls, pos, it):
+        for _, x in zip(range(pos), it):
             yield x
-        raise _exc(cls, InjectedComputeFault, f'partition {idx} attempt {a} (lazy)')
+        raise _exc(cls, InjectedComputeFault, f'partition {idx} attempt {a} (lazy, element {pos})')
